@@ -534,9 +534,26 @@ def check_construct_before_start(ctx, W, o, verdicts=None):
     inst0 = '[%s] %s' % (tu.config, o.ctor['q'].replace('rkcommon::tasking::', '')) + W.tag
     starter = o.fields.get(o.starter_field, {}).get('name') if o.starter_field else None
     later = {}
+    stored = {}
     for blk, idx, e in X.reachable_after(g, o.pos):
         if e[0] == 'I' and e[2]:
             later.setdefault(e[2], e)
+        elif e[0] == 'S':
+            # a plain store of the constructor (body) into a member of this object, executed after the start
+            x = tu.node(e[1])
+            tgt = None
+            if x is not None and x.get('kind') == 'BinaryOperator' and x.get('opcode', '').endswith('=') and \
+                    x.get('opcode') not in ('==', '!=', '<=', '>='):
+                tgt = tu.kids(x)[0]
+            elif x is not None and x.get('kind') in ('CXXOperatorCallExpr', 'CXXMemberCallExpr'):
+                aop = atomic_op(tu, x)
+                if aop is not None and aop[0] == 'store':
+                    tgt = aop[1]
+                elif x.get('kind') == 'CXXOperatorCallExpr' and tu.sd(x).get('q', '').split('::')[-1] == 'operator=':
+                    tgt = X.call_parts(tu, x)[1]
+            pth = mpath(tu, tgt) if tgt is not None else None
+            if pth and len(pth) == 1:
+                stored.setdefault(pth[0], x)
     n = 0
     file = tu.fn_file(o.ctor)
     for fid, (fname, floc) in sorted(o.touched.items(), key=lambda kv: kv[1][0]):
@@ -554,13 +571,21 @@ def check_construct_before_start(ctx, W, o, verdicts=None):
                    % (fname, tu.loc(later[fid][1]), 'the initialisation of `%s`' % starter if starter else 'the statement at ' + tu.loc(o.node),
                       floc, fname, '`%s`' % starter if starter else 'the start'))
             key = '%s|%s|%s|%s-constructed-after-start' % (R2, file, rec_name(o.rec), fname)
+        elif fid in stored:
+            why = ('the constructor stores to member `%s` (%s at %s) after %s has started the closure that accesses it at %s: a task '
+                   'that has already run by then has its value overwritten (a completion flag set by the finished task is wiped: '
+                   'finished()/valid() stay false for ever) and until the store the closure and early readers see an '
+                   'indeterminate value; give the member its value in an initialiser that runs before the start'
+                   % (fname, tu.show(stored[fid]), tu.loc(stored[fid]), 'the initialisation of `%s`' % starter if starter else
+                      'the statement at ' + tu.loc(o.node), floc))
+            key = '%s|%s|%s|%s-stored-after-start' % (R2, file, rec_name(o.rec), fname)
         else:
             why = None
         if verdicts is not None:
             verdicts.append((rec_name(o.rec), fname, why is not None))
             continue
         if why:
-            ctx.violation(R2, inst, why, tu.loc(later[fid][1]) if fid in later else tu.fn_loc(o.ctor), key=key,
+            ctx.violation(R2, inst, why, tu.loc(later[fid][1]) if fid in later else (tu.loc(stored[fid]) if fid in stored and fid != o.starter_field else tu.fn_loc(o.ctor)), key=key,
                           path=['%s: closure started here' % tu.loc(o.node), '%s: closure accesses `%s`' % (floc, fname)] +
                                (['%s: `%s` initialised here, after the start' % (tu.loc(later[fid][1]), fname)] if fid in later else []))
         else:
@@ -4624,6 +4649,165 @@ def check_registry_outlives_scheduler(ctx, W):
     return n
 
 
+# ================================================================================================
+#  R-C02-17 a running count taken by the scheduler is given back on every path (or handed to a pipe entry)
+# ================================================================================================
+R17 = 'R-C02-17'
+RX_COUNT_ADD = re.compile(r'^(enki::AtomicAdd|__sync_fetch_and_add|__sync_add_and_fetch)$')
+
+
+def completable_field(tu, e):
+    """name of the data member of an enki completable (task set) that expression e designates, else None"""
+    for x in tu.walk(e):
+        if x.get('kind') == 'MemberExpr' and 'fi' in tu.sd(x) and tu.kids(x):
+            base = core(tu, tu.kids(x)[0])
+            bt = X.clean_t(tu.sd(base).get('ct', '')) if base is not None else ''
+            bare = re.sub(r'\b(const|volatile)\b|[*&]', ' ', bt).strip()        # `ITaskSet *const` (a local copy of the pointer)
+            if any(X.derived_from(tu, r, X.ENKI_COMPLETABLE) for t in (bt, bare) for r in X.record_of_type(tu, t)):
+                return x.get('name')
+    return None
+
+
+def count_op(tu, x):
+    """(field name, delta) for an atomic add of a constant to a member of a task set"""
+    if x is None or x.get('kind') != 'CallExpr' or not RX_COUNT_ADD.match(tu.sd(x).get('q', '')):
+        return None
+    sd, obj, args = X.call_parts(tu, x)
+    if len(args) < 2:
+        return None
+    fld = completable_field(tu, args[0])
+    v = const_value(tu, args[1])
+    if fld is None or v is None or v == 0:
+        return None
+    return fld, v
+
+
+def write_fail_edges(tu, g):
+    """{block id: successor taken when the pipe write tested by the block's condition FAILED}"""
+    out = {}
+    for wb, wi, w in g.stmts():
+        if w.get('kind') != 'CXXMemberCallExpr' or tu.sd(w).get('q', '').split('::')[-1] not in PUBLISH_METHODS:
+            continue
+        okv = None
+        p = tu.par(w)
+        hops = 0
+        while p is not None and hops < 4 and p.get('kind') in ('ImplicitCastExpr', 'ParenExpr', 'ExprWithCleanups'):
+            p = tu.par(p)
+            hops += 1
+        if p is not None and p.get('kind') == 'VarDecl':
+            okv = p['id']
+        elif p is not None and p.get('kind') == 'BinaryOperator' and p.get('opcode') == '=':
+            okv = decl_ref(tu, tu.kids(p)[0])
+        for blk in g.blocks.values():
+            if not blk.cond or len(blk.succ) != 2:
+                continue
+            c = deciding(tu, tu.node(blk.cond))
+            pol = 1
+            while c is not None and c.get('kind') == 'UnaryOperator' and c.get('opcode') == '!':
+                pol = -pol
+                c = core(tu, tu.kids(c)[0])
+            if c is None:
+                continue
+            if c.get('id') == w['id'] or (okv and c.get('kind') == 'DeclRefExpr' and c.get('referencedDecl', {}).get('id') == okv):
+                out[blk.id] = blk.succ[1] if pol == 1 else blk.succ[0]
+    return out
+
+
+def check_count_pairing(ctx, W, tu, verdicts=None):
+    """every `running count += k` (k > 0) on a task set in the scheduler is followed, on every path to the function's exit or back
+    to the same increment, by a decrement of the same member -- unless the path took the success edge of a pipe write (the
+    count then belongs to the queued entry and the thread that runs it gives it back)"""
+    givers = set()          # functions of the TU that themselves decrement a task-set member
+    for f in tu.functions.values():
+        if f['dep'] or tu.cfg(f) is None:
+            continue
+        for b, i, x in tu.cfg(f).stmts():
+            op = count_op(tu, x)
+            if op and op[1] < 0:
+                givers.add((f['id'], op[0]))
+    n = 0
+    for f in sorted(tu.functions.values(), key=lambda f: f['q']):
+        if f['dep'] or tu.cfg(f) is None:
+            continue
+        g = tu.cfg(f)
+        incs = [(b, i, x, count_op(tu, x)) for b, i, x in g.stmts() if (count_op(tu, x) or (None, 0))[1] > 0]
+        if not incs:
+            continue
+        fail = write_fail_edges(tu, g)
+        name = r7_name(f)
+        for ib, ii, ix, (fld, delta) in incs:
+            n += 1
+            inst = '[%s] %s: `%s` of the task += %d at %s' % (tu.config, f['q'], fld, delta, tu.loc(ix)) + W.tag
+
+            def gives_back(x):
+                op = count_op(tu, x)
+                if op and op[0] == fld and op[1] < 0:
+                    return True
+                if x.get('kind') in X.CALLS:
+                    c = tu.callee_fn(x)
+                    return c is not None and c['id'] != f['id'] and (c['id'], fld) in givers
+                return False
+
+            def scan(blk, lo, hi, ran):
+                """'back' if a decrement is met in blk.el[lo:hi], else None; collects ExecuteRange calls passed"""
+                for k in range(lo, hi):
+                    e = blk.el[k]
+                    if e[0] != 'S':
+                        continue
+                    x = tu.node(e[1])
+                    if x is None:
+                        continue
+                    if gives_back(x):
+                        return 'back'
+                    if x.get('kind') == 'CXXMemberCallExpr' and tu.sd(x).get('q') == X.ENKI_EXECUTE:
+                        ran.append(tu.loc(x))
+                return None
+
+            def nexts(blk):
+                if blk.id in fail:
+                    return [fail[blk.id]]
+                return [s for s in blk.succ if s is not None]
+            leaks = []
+            ran = []
+            seen = set()
+            work = []
+            if scan(ib, ii + 1, len(ib.el), ran) is None:
+                if ib.id == g.exit:
+                    leaks.append('exit')
+                work = nexts(ib)
+            while work:
+                bid = work.pop()
+                if bid is None or bid in seen:
+                    continue
+                seen.add(bid)
+                blk = g.blocks[bid]
+                if bid == ib.id:
+                    if scan(blk, 0, ii, ran) is None:
+                        leaks.append('again')
+                    continue
+                if scan(blk, 0, len(blk.el), ran) is not None:
+                    continue
+                if bid == g.exit:
+                    leaks.append('exit')
+                    continue
+                work.extend(nexts(blk))
+            if verdicts is not None:
+                verdicts.append((name, bool(leaks)))
+                continue
+            if leaks:
+                how = ' and '.join(sorted({'reaches the end of the function' if l == 'exit' else
+                                           'comes back to the same increment (next loop iteration)' for l in leaks}))
+                ctx.violation(R17, inst, 'a path from this increment %s without `%s` having been decremented again and without a successful '
+                              'pipe write that would hand the count to the queued entry%s: the task set stays "running" for ever -- '
+                              'WaitforTask / AsyncTask::wait / ~AsyncTask on it never return and a detached task is never seen complete and '
+                              'never freed. Every inline run (pipe full / no worker) has to give the count back after ExecuteRange'
+                              % (how, fld, (' (the path runs the task inline: ExecuteRange at %s)' % ', '.join(sorted(set(ran)))) if ran else ''),
+                              tu.loc(ix), key='%s|%s|%s|%s-not-given-back' % (R17, tu.fn_file(f), name, fld))
+            else:
+                ctx.ok(R17, inst, 'every path from the increment decrements `%s` again or hands the partition to a pipe' % fld, tu.loc(ix))
+    return n
+
+
 def check_wait_drains(ctx, W):
     """TaskScheduler::WaitforTask(p) returns, for p != null, only after p's running count was read as zero"""
     tu = W.scheduler
@@ -4887,6 +5071,7 @@ def run_world(ctx, W):
     n15 = check_slot_protocol(ctx, W, W.scheduler)
     n16 = check_registry_outlives_scheduler(ctx, W)
     n11 = check_full_pipe_progress(ctx, W, W.scheduler)
+    n17 = check_count_pairing(ctx, W, W.scheduler)
     info = classify_scheduler(ctx, W)
     n8 = n9 = n12 = n13 = 0
     if info is None or not info['drains']:
@@ -4898,7 +5083,7 @@ def run_world(ctx, W):
         n12 = check_workers_exist(ctx, W, info)
         n13 = check_partition_divisors(ctx, W, info)
     check_witness(ctx, W)
-    return dict(n14=n14, n15=n15, n16=n16, n13=n13, n12=n12, n2o=n2o, n11=n11, n10=n10, n9=n9, n8=n8, n7s=n7s, n7p=n7p, n1=n1 + n_sub, names=names, n2=n2, n3=n3, n4=n4, n5=n5, n6=n6, nsites=nsites)
+    return dict(n17=n17, n14=n14, n15=n15, n16=n16, n13=n13, n12=n12, n2o=n2o, n11=n11, n10=n10, n9=n9, n8=n8, n7s=n7s, n7p=n7p, n1=n1 + n_sub, names=names, n2=n2, n3=n3, n4=n4, n5=n5, n6=n6, nsites=nsites)
 
 
 def floors(ctx, r, tag=''):
@@ -4916,6 +5101,7 @@ def floors(ctx, r, tag=''):
     ctx.floor(R5, r['n5'], 8, 'async<IntJob>, async<StringJob&> x 4 backends' + tag)
     ctx.floor(R6, r['n6'], 5, 'ExecuteRange overrides: schedule_internal x 3, AsyncTaskImpl, parallel_for_internal' + tag)
     ctx.floor(R6, r['nsites'], 1, 'ExecuteRange call sites in TaskScheduler.cpp (3 on the pinned tree; one is enough to mine the obligation)' + tag)
+    ctx.floor(R17, r['n17'], 1, 'atomic increments of a task set member (m_RunningCount) in TaskScheduler.cpp: 2 in SplitAndAddTask on the pinned tree' + tag)
     ctx.floor(R14, r['n14'], 1, 'loops that steal from the pipes of other threads: TryRunTask' + tag)
     ctx.floor(R15, r['n15'], 1, 'writers of the slot ring: LockLessMultiReadPipe::WriterTryWriteFront' + tag)
     ctx.floor(R16, r['n16'], 1, 'shared containers that register detached tasks: g_detached' + tag)
@@ -4945,6 +5131,8 @@ def run(ctx):
     ctx.assume('tbb::task_arena::enqueue, tbb::task_group::run, std::thread and the enkiTS pipe invoke a submitted callable exactly once '
                '(backend contract; the enkiTS partition/pipe bookkeeping is the subject of C01/C12)')
     ctx.assume('std::packaged_task / std::future deliver the value of the invoked callable (standard library contract)')
+    ctx.describe(R17, 'a running count the scheduler takes on a task set is given back on every path (after the inline ExecuteRange) unless '
+                      'the partition was successfully written to a pipe')
     ctx.describe(R14, 'the stealing loop visits the pipe of every other thread whatever pipe it starts at')
     ctx.describe(R15, 'the single writer of the slot ring stores into a slot only after the flag of that slot showed the readers released it')
     ctx.describe(R16, 'the registry of detached tasks is destroyed after the scheduler (static destruction order)')
